@@ -250,6 +250,26 @@ def replay_unverified_ptr(spec, vals, obligation, desc):
     return body, judge
 
 
+def replay_buffer_address(spec, vals, obligation, desc):
+    pv, cv = _int(vals, 'in_p'), _int(vals, 'in_count')
+    body = PRE + 'int main(){\n' + backend_setup(vals) + WHOLLY
+    body += ('  tainted<%s*, vsbx> p; *reinterpret_cast<uintptr_t*>(&p) = %dULL; size_t count = (size_t)%dULL;\n'
+             '  int aborted = 0; uintptr_t ret = 0; int calls = 0; mathint P = (mathint)%dULL; mathint bytes = (mathint)count * %d;\n'
+             '  try { ret = p.copy_and_verify_buffer_address([&](uintptr_t v) { calls++; return v; }, count); } catch (const std::runtime_error&) { aborted = 1; }\n'
+             '  std::printf("aborted=%%d\\nverifier_calls=%%d\\n", aborted, calls); pr("p", P); pr("count", (mathint)count); pr("bytes", bytes); pr("address_given_to_verifier", (mathint)ret);\n'
+             '  std::printf("elements_wholly_inside=%%d\\n", (int)(count >= 1 && wholly_in(P, bytes)));\n  return 0; }\n'
+             % (spec['pointee'], pv, cv, pv, spec['esz']))
+
+    def judge(d):
+        returned = d.get('aborted') == '0'
+        if 'verifier_stub' in obligation and 'precondition' in obligation:
+            return returned and d.get('verifier_calls') == '1' and d.get('address_given_to_verifier') != '0' and d.get('elements_wholly_inside') == '0'
+        if 'precondition' in obligation:     # no-abort direction
+            return d.get('aborted') == '1' and cv >= 1 and (pv == 0 or d.get('elements_wholly_inside') == '1')
+        return False
+    return body, judge
+
+
 def sandbox_setup(vals, var='sb'):
     return ('  static rlbox_sandbox<vsbx> %s; %s.slot = %d;\n' % (var, var, _int(vals, 'in_slot')))
 
@@ -373,7 +393,7 @@ def replay_register_full_table(spec, vals, obligation, desc):
 
 KINDS = {'callback_move_assign': replay_callback_move_assign, 'register_full_table': replay_register_full_table,
          'app_ptr_move_assign': replay_app_ptr_move_assign, 'convert': replay_convert, 'ptr_arith': replay_ptr_arith, 'arr_index': replay_arr_index,
-         'check_range': replay_check_range, 'unverified_ptr': replay_unverified_ptr,
+         'check_range': replay_check_range, 'unverified_ptr': replay_unverified_ptr, 'buffer_address': replay_buffer_address,
          'assign_raw': replay_assign_raw, 'accept_pointer': replay_accept_pointer}
 
 
